@@ -51,11 +51,14 @@ structure Store where
   bufs : List Buf := []
   objs : List Obj := []
   vars : List (Nat × Nat) := []     -- program variable -> object id
-  deriving Repr, Inhabited
+  cfg : Tables := default           -- unit tables (Generated for the model, Reference for the spec)
+  deriving Inhabited
 
 abbrev M := StateT Store (Except Err)
 
 def fail {α : Type} (e : Err) : M α := throw e
+
+def tables : M Tables := do pure (← get).cfg
 
 def getObj (id : Nat) : M Obj := do
   match (← get).objs[id]? with
@@ -83,7 +86,7 @@ def getBuf (id : Nat) : M Buf := do
 def lookupVar (v : Nat) : M Nat := do
   match (← get).vars.find? (·.1 == v) with
   | some p => pure p.2
-  | none => fail .badOp
+  | none => fail .unbound
 
 def bindVar (v : Nat) (id : Nat) : M Unit :=
   modify fun s => { s with vars := (v, id) :: s.vars.filter (·.1 != v) }
@@ -174,6 +177,18 @@ def writeArr (id : Nat) (data : List Rat) (unit : U) : M Unit := do
   modify fun s => { s with bufs := s.bufs.set a.buf { b with data := data' } }
   setObj id (.arr { a with unit := unit })
 
+/-- run actions one after the other, keeping the effects of those that succeeded;
+    stops at the first failure and reports it (Python loops that raise midway) -/
+def partialSeq (acts : List (M Unit)) : M (Option Err) := do
+  let mut err : Option Err := none
+  for act in acts do
+    if err.isNone then
+      let s ← get
+      match act.run s with
+      | .ok (_, s') => set s'
+      | .error e => err := some e
+  pure err
+
 /-! ### right operands -/
 
 inductive Rhs
@@ -185,12 +200,13 @@ inductive Rhs
     view, the unit is rebound on the *same* object, which is returned -/
 def arrInplace (op : BinOp) (lhsId : Nat) (rhs : ArrV) : M Nat := do
   let lhs ← readArr lhsId
-  let r ← liftR (ArrV.binaryOp op lhs rhs)
+  let T ← tables
+  let r ← liftR (ArrV.binaryOp T op lhs rhs)
   if r.shape != lhs.shape then fail .valueErr
   if !DType.canCastSameKind r.dtype lhs.dtype then fail .typeErr
   -- the unit rule is evaluated on the dtype of the `out` array
   let rhs' := match rhs.to lhs.unit with | .ok (x, _) => x | .error _ => rhs
-  let unit := wrapUnit op.npName lhs.dtype lhs.unit (op.derivedUnit lhs.unit rhs'.unit)
+  let unit := wrapUnit T op.npName lhs.dtype lhs.unit (op.derivedUnit lhs.unit rhs'.unit)
   writeArr lhsId r.data unit
   pure lhsId
 
